@@ -16,7 +16,7 @@ Print pf_txn.
 Definition pf_big := Eval vm_compute in
   failing (c09_prop well_formed_fast_b
      (fun t => facts_consistent_b 0 t && ids_consistent_fast_b t &&
-               forallb (fun o => in_ub 64 (o_hours o)) (t_outs t))) cases_big.
+               forallb (fun o => (0 <=? o_addr o) && (0 <=? o_coins o) && (0 <=? o_hours o)) (t_outs t))) cases_big.
 Print pf_big.
 (* VerifyInputSignatures: when the prelude holds the result is nil exactly when
    every input is signed, valid and recovers the owner's address; when it does
